@@ -450,7 +450,6 @@ def child(arg):
     from pytype.pytd import pytd_utils
     captured = []
     rt.install_monitor()
-    real = rt._installed["print"]                      # pylint: disable=protected-access
     # capture the (unit, text) pairs the monitor judged, for fingerprints
     mon_print = pytd_utils.Print
 
@@ -572,7 +571,7 @@ def _tasks(tier, seed):
   if tier == "quick":
     n_prog_batches, per_batch, n_unit_batches, units_per = 12, 14, 8, 45
   else:
-    n_prog_batches, per_batch, n_unit_batches, units_per = 48, 42, 32, 320
+    n_prog_batches, per_batch, n_unit_batches, units_per = 48, 42, 32, 200
   tasks = []
   for b in range(n_prog_batches):
     cases = []
@@ -657,6 +656,7 @@ def replay(rec) -> int:
   for x in vs[:5]:
     print("  mechanism:", x["key"])
   if hit:
-    print(f"VIOLATION property=C05 replay={rec.get('key')}")
+    print("VIOLATION property=C05 replay=<replayed>")
+    print("  mechanism:", rec["key"])
     return 1
   return 0
